@@ -18,6 +18,15 @@ pub(crate) fn read_type(src: &mut &[u8]) -> io::Result<Option<Type>> {
     let mut len = usize::from(encoding >> 4);
 
     if len == MAX_TYPE_LEN {
+        // The length is a single typed integer. It cannot itself have an overflowing length, which
+        // also bounds the recursion through `read_value`.
+        if src.first().is_some_and(|b| usize::from(b >> 4) == MAX_TYPE_LEN) {
+            return Err(io::Error::new(
+                io::ErrorKind::InvalidData,
+                "invalid length value",
+            ));
+        }
+
         let value = read_value(src)?;
 
         len = match value.and_then(|v| v.as_int()) {
